@@ -194,7 +194,7 @@ class C07(Check):
             'ordered pair of nested real-fault kinds incl. the undecoded one, sampler windows x flag sets, launch window) x word '
             'sets {junk, failing END, zeros, all-ones, small} (quick: junk, fail, zeros) x every subset of the window dropped '
             '(<=2^9), every single duplication, every insertion of one undecoded/unrelated/kernel-trace-data/look-alike record at every position, lone '
-            'NONE/ALL, windows with 3 and 6 lookups with every dropped prefix; every enum member in the zero-omission window (thorough: the whole fault enumeration for 4 different members of every enum-valued word). '
+            'NONE/ALL, windows with 3 and 6 lookups with every dropped prefix; windows of 2^k-2..2^k+2 stand-alone records (k=6..13) before another call starts; every enum member in the zero-omission window (thorough: the whole fault enumeration for 4 different members of every enum-valued word). '
             'Oracle: feed_generator consumes the history and str() of every emitted trace returns. non-trivial = at least one '
             'event of the window was dropped, duplicated or inserted. Distinct by construction.')
     assumptions = ('"individually in-domain" is decided by the frozen table, not by the decoder under test',
@@ -210,6 +210,7 @@ class C07(Check):
     def shards(self):
         out = [('dec', ch) for ch in chunked(decoders(), 64)]
         out.append(('facade', None))
+        out += [('pow2', k) for k in range(6, 14 if self.tier == 'quick' else 16)]
         if self.tier == 'thorough':
             out += [('nest', ch) for ch in chunked(decoders(), 32)]
         return out
@@ -238,6 +239,15 @@ class C07(Check):
                         self._one(acc, name, ('junk', 'member', pick) + how, evs, nontrivial=True)
                         if how[1] == 3:
                             break
+        elif kind == 'pow2':
+            # exact boundaries of window length: an orphan START, n stand-alone records of the thread, then another START/END
+            k = names
+            for n in range(2 ** k - 2, 2 ** k + 3):
+                for shape in ('orphan-start', 'closed'):
+                    evs = [E.ev('BSC_read', 1, (3, 4, 5, 6))] + [undecoded('K' if i % 2 else 'W') for i in range(n)] + \
+                          [E.ev('BSC_getpid', 1, (1, 2, 3, 4)), E.ev('BSC_getpid', 2, (0, 5, 0, 0))] + \
+                          ([E.ev('BSC_read', 2, (0, 9, 0, 0))] if shape == 'closed' else [])
+                    self._one(acc, 'BSC_read', ('pow2', n, shape), evs, nontrivial=True)
         elif kind == 'facade':
             tc = dict(E.codes())
             for name in decoders():
@@ -275,11 +285,17 @@ class C07(Check):
         if n:
             acc.count('histories_emitting_traces')
         if bad:
-            acc.violation(bad[0], {'decoder': name, 'how': [str(x) for x in how], 'events': describe(evs)}, bad[1])
+            acc.violation(bad[0], {'decoder': name, 'how': [str(x) for x in how], 'events': describe(evs) if len(evs) < 60 else describe(evs[:3]) + ['...']}, bad[1])
         elif nontrivial and n and acc.want_sample():
             acc.sample({'decoder': name, 'how': [str(x) for x in how], 'events': describe(evs)[:4]})
 
     def replay(self, case):
+        if case.get('how', [''])[0] == 'pow2':
+            from mc.run import Acc
+            acc = Acc()
+            import math
+            self.run_shard(('pow2', round(math.log2(int(case['how'][1]) + 2))), acc)
+            return [(sig, v['cases'][0][1]) for sig, v in acc.violations.items()]
         evs = rebuild(case['events'])
         if case.get('via') == 'formatted_traces':
             recs = [B.rec(i + 1, tid=x.tid, debugid=x.debugid, data=x.data) for i, x in enumerate(evs)]
